@@ -20,8 +20,9 @@ EXPLANATION = ("H17: infretis.scheduler.scheduler with the real REPEX_state (ini
                "continued from its restart file with a larger symbolic step count.")
 ASSUMPTIONS = [
     "remaining steps (steps - restart point) >= workers, the property's 'step count not smaller than the worker count'",
-    "the task runner is replaced by a fake that completes any outstanding job next (aiorunner/future_list themselves -- "
-    "asyncio thread + process pool, exactly-once delivery under all timings -- are outside this technique)",
+    "the task runner is replaced by a fake that completes any outstanding job next; of the real runner only "
+    "future_list.as_completed is executed (with futures whose done() flips nondeterministically); aiorunner itself -- asyncio "
+    "thread + process pool -- is outside this technique",
     "moves are rejected (the outcome does not enter the step arithmetic); picks take the first admissible index",
     "setup_config's stop rule (file reading) outside",
 ]
@@ -33,7 +34,8 @@ def install():
 
 def functions():
     R = rx.REPEX_state
-    return [isched.scheduler, R.loop, R.initiate, R.prep_md_items, R.treat_output, R.write_toml, R.pick_lock, R.pick]
+    from infretis.asyncrunner import future_list
+    return [future_list.as_completed, future_list.add, isched.scheduler, R.loop, R.initiate, R.prep_md_items, R.treat_output, R.write_toml, R.pick_lock, R.pick]
 
 
 def bounds(tier, prop):
@@ -44,7 +46,7 @@ def bounds(tier, prop):
 
 
 def instances(tier, prop):
-    out = []
+    out = [{"kind": "futures", "n": n, "_cost": 4 ** n} for n in (1, 2, 3)]
     for w in (1, 2, 3):
         r = ({1: 6, 2: 5, 3: 4} if tier == "quick" else {1: 9, 2: 7, 3: 6})[w]
         c = w if tier == "quick" else w + 1
@@ -53,7 +55,7 @@ def instances(tier, prop):
     return out
 
 
-EXPECT = ["run:finished", "run:continued", "run:restarted-with-in-flight"]
+EXPECT = ["futures:all-delivered", "run:finished", "run:continued", "run:restarted-with-in-flight"]
 
 
 class _Crash(Exception):
@@ -144,7 +146,39 @@ def _fresh_rec():
     return {"submitted": [], "outstanding": [], "treated": 0, "cstep_in_restart_file": [], "empty_polls": 0, "left_at_stop": None}
 
 
+def _futures(ctx, sh):
+    """the real future_list: whatever the completion timing, every future is handed out exactly once, only when done."""
+    from infretis.asyncrunner import future_list
+    n = sh["n"]
+
+    class F:
+        def __init__(self, i):
+            self.i, self.is_done, self.asked = i, False, 0
+
+        def done(self):
+            self.asked += 1
+            if not self.is_done:
+                # it may have finished since the last look; after a few looks it has
+                self.is_done = bool(ctx.choice(2, f"done{self.i}")) or self.asked >= 3
+            return self.is_done
+    fl = future_list()
+    futs = [F(i) for i in range(n)]
+    for f in futs:
+        fl.add(f)
+    got = []
+    for _ in range(n):
+        r = fl.as_completed()
+        ctx.check(r is not None, "C17:a-finished-unit-is-delivered", f"got None with {n - len(got)} outstanding")
+        ctx.check(r.is_done, "C17:only-finished-units-are-delivered", f"{r.i}")
+        ctx.check(r.i not in got, "C17:each-result-delivered-exactly-once", f"{r.i} twice")
+        got.append(r.i)
+    ctx.check(fl.as_completed() is None and sorted(got) == list(range(n)), "C17:every-unit-is-delivered-exactly-once", f"{got}")
+    ctx.cover("futures:all-delivered")
+
+
 def run_instance(ctx, sh):
+    if sh.get("kind") == "futures":
+        return _futures(ctx, sh)
     rngmodel.REG.ids.clear()
     X.PROP = "C17"
     w = sh["w"]
